@@ -9,6 +9,7 @@ import (
 	"sort"
 	"strings"
 
+	"seehuhn.de/go/sfnt"
 	"seehuhn.de/go/sfnt/cmap"
 	"seehuhn.de/go/sfnt/glyph"
 )
@@ -247,6 +248,29 @@ func init() {
 			return ints(out)
 		}))
 	}
+	// direct predicate: Get on a Macintosh (1,0) format 0 subtable answers in Unicode, like format 6 does
+	ops["cmapx.mac0"] = func(f Fields) string {
+		return cxPanic(guard(func() string {
+			t := cmap.Table{{PlatformID: 1, EncodingID: 0}: f.Hex("bytes")}
+			st, err := t.Get(cmap.Key{PlatformID: 1, EncodingID: 0})
+			if err != nil {
+				return "na"
+			}
+			codes := f.Ints("codes")
+			out := make([]int, len(codes))
+			for i, c := range codes {
+				out[i] = int(st.Lookup(rune(c)))
+			}
+			return ints(out)
+		}))
+	}
+	ops["cmapx.install"] = func(f Fields) string {
+		return cxPanic(guard(func() string {
+			font := &sfnt.Font{}
+			font.InstallCMap(cxParseMap32(f))
+			return "ok:" + cxShowTab(font.CMapTable)
+		}))
+	}
 	ops["cmapx.dec6"] = func(f Fields) string {
 		return cxPanic(guard(func() string {
 			m, err := cmap.VerifDecode6(f.Hex("bytes"), f.Int("mac") == 1)
@@ -337,7 +361,7 @@ func cxGenMap32(r *Rng, c *Ctx) cmap.Format12 {
 	m := cmap.Format12{}
 	nruns := r.Range(0, 10)
 	big := 0
-	if r.Chance(1, 120) || (c.Tier == "thorough" && r.Chance(1, 40)) {
+	if r.Chance(1, 120) {
 		big = Pick(r, []int{65535, 65536, 65536, 65537, 70000})
 	}
 	code := uint64(0)
@@ -662,6 +686,14 @@ func cxCase12(c *Ctx, r *Rng) {
 		c.Stat("dec12_of_own_output", "refused:OTHER")
 	}
 	c.Case(Direct, "cmapx.decspec12", fmt.Sprintf("bytes=%s codes=%s", b, codes), nontriv)
+	if len(b) < 4000 {
+		inst := c.Case(Verdict, "cmapx.install", "map="+marg, nontriv)
+		if strings.Contains(inst, "3.10.0") {
+			c.Stat("install", "full-unicode keys (0,4),(3,10)")
+		} else {
+			c.Stat("install", "bmp keys (0,3),(3,1)")
+		}
+	}
 	if len(b) > 20000 {
 		return
 	}
@@ -724,6 +756,17 @@ func cxCase06(c *Ctx, r *Rng) {
 			c.Stat("dec0_outcome", strings.SplitN(res, ":", 2)[0])
 			c.Case(Direct, "cmapx.decspec0", fmt.Sprintf("bytes=%s codes=%s", hx(mu), codes), true)
 		}
+	}
+	// format 0 on the Macintosh platform: only ASCII runes are queried (known finding C09-mac-format0:
+	// decodeFormat0 ignores code2rune, runes >= 128 are looked up as raw codes)
+	if strings.HasPrefix(out, "ok:") {
+		var asc []int
+		for _, x := range cxCodes8(r) {
+			if x < 128 || x > 0xFFFF {
+				asc = append(asc, x)
+			}
+		}
+		c.Case(Direct, "cmapx.mac0", fmt.Sprintf("bytes=%s codes=%s", out[3:], ints(asc)), true)
 	}
 	// format 6
 	first := Pick(r, []int{0, 32, r.Intn(300), 0xFFF0 + r.Intn(16), r.Intn(0x10000)})
